@@ -33,7 +33,7 @@ class IterSim(Sim):
     PROBES = ["two_live_cursors_one_tensor", "three_live_cursors", "nested_for_same_tensor", "nested_for_depth3", "nested_for_two_tensors",
               "zip_same_tensor", "list_during_live_iteration", "getitem_during_live_iteration", "abandoned_then_restarted", "exhausted_cursor_polled_again",
               "rank0_refuses_iteration", "empty_first_dim", "rows_in_backward", "unpack", "len_during_iteration", "iteration_of_op_result",
-              "state_changed_between_iterations"]
+              "state_changed_between_iterations", "iteration_of_strided_view", "several_rows_held", "index_kind_bool", "index_kind_out_of_range", "index_kind_float"]
     RULE = ("one run = tensors plus a seeded interleaving of iter/next/drop on several cursors with nested for-loops, list/zip/unpack/len/index "
             "events; distinct = hash of (number of cursors, order of new/next/drop and loop events); non-trivial = two cursors over one tensor "
             "were live at once, or a nested loop over one tensor ran")
@@ -58,7 +58,7 @@ class IterSim(Sim):
             rank = rng.choice([0, 1, 1, 2, 2, 3, 4])
             shape = tuple([rng.randint(0, 5)] + [rng.randint(1, 3) for _ in range(rank - 1)]) if rank else ()
             return {"k": "tensor", "id": len(st.T), "data": enc(small_values(rng, shape, np.float64 if rng.random() < 0.5 else np.float32, -4, 4)),
-                    "rg": rng.random() < 0.4, "derive": rng.random() < 0.25}
+                    "rg": rng.random() < 0.4, "derive": rng.choice([None, None, None, "mul1", "transpose", "colslice", "movedim"])}
         tids = sorted(st.T)
         live = sorted(st.its)
         r = rng.random()
@@ -78,7 +78,11 @@ class IterSim(Sim):
         if r < 0.89:
             t = rng.choice(tids)
             n = st.T[t].data.shape[0] if st.T[t].data.ndim else 0
-            return {"k": "getitem", "t": t, "i": rng.randrange(-n, n) if n else 0, "j": rng.randint(0, n) if n else 0, "slice": rng.random() < 0.4}
+            kind = rng.choice(["int", "int", "slice", "bool", "npint", "out_of_range", "float", "none", "ellipsis"])
+            i = rng.randrange(-n, n) if n else 0
+            if kind == "out_of_range":
+                i = rng.choice([n, n + 1, -n - 1, -2 * n, -2 * n - 1, 2 * n]) if n else 0
+            return {"k": "getitem", "t": t, "i": i, "j": rng.randint(0, n) if n else 0, "kind": kind, "b": rng.random() < 0.5}
         if r < 0.91:
             return {"k": "len", "t": rng.choice(tids)}
         if r < 0.93:
@@ -92,7 +96,17 @@ class IterSim(Sim):
     def _rows(self, t):
         """reference rows: what t[i] returns, for i in range(n)"""
         n = t.data.shape[0]
-        return [t[i] for i in range(n)]
+        return [self._row(t, i) for i in range(n)]
+
+    def _row(self, t, i):
+        try:
+            with quiet():
+                r = t[i]
+        except Exception as e:
+            self._st.fail("C05.indexing", f"t[{i}] on a tensor with first dimension {t.data.shape[0]} raised {type(e).__name__}: {e}")
+        if r.data.shape != t.data[i].shape:
+            self._st.fail("C05.indexing", f"t[{i}] on a tensor of shape {t.data.shape} returned shape {r.data.shape}, NumPy gives {t.data[i].shape}")
+        return r
 
     def _same(self, a, ref):
         return (a.data.shape == ref.data.shape and a.data.dtype == ref.data.dtype and a.data.tobytes() == ref.data.tobytes()
@@ -103,15 +117,26 @@ class IterSim(Sim):
 
     # ------------------------------------------------------------------ events
     def apply(self, st, ev):
+        self._st = st
         st.sig.append(ev["k"])
         getattr(self, "_ev_" + ev["k"])(st, ev)
 
     def _ev_tensor(self, st, ev):
         SG = st.SG
         t = SG.Tensor(dec(ev["data"]), requires_grad=ev["rg"])
-        if ev.get("derive") and t.data.ndim >= 1:
+        d = ev.get("derive")
+        if d in (True, "mul1") and t.data.ndim >= 1:
             t = t * 1.0        # an op result instead of a leaf
             st.probes["iteration_of_op_result"] += 1
+        elif d == "transpose" and t.data.ndim >= 2:
+            t = t.transpose(0, 1)                 # a non-contiguous view
+            st.probes["iteration_of_strided_view"] += 1
+        elif d == "movedim" and t.data.ndim >= 3:
+            t = t.movedim(0, -1)
+            st.probes["iteration_of_strided_view"] += 1
+        elif d == "colslice" and t.data.ndim >= 2 and t.data.shape[1] >= 2:
+            t = st.must("C05.indexing", "t[:, ::2]", lambda: t[:, ::2])
+            st.probes["iteration_of_strided_view"] += 1
         st.T[ev["id"]] = t
 
     def _ev_iter_new(self, st, ev):
@@ -165,10 +190,19 @@ class IterSim(Sim):
             st.fail("C05.iteration", f"next() on cursor {ev['it']} raised {type(e).__name__}: {e}")
         if c["pos"] >= n:
             st.fail("C05.iteration", f"cursor {ev['it']} over tensor {c['t']} (n={n}) yielded a row after it was exhausted", tensor=c["t"])
-        ref = t[c["pos"]]
+        ref = self._row(t, c["pos"])
         if not self._same(row, ref):
             st.fail("C05.iteration", f"cursor {ev['it']} over tensor {c['t']}: item #{c['pos']} is not row {c['pos']} "
                     f"({len(self._live_on(st, c['t']))} cursors live on that tensor)", tensor=c["t"], got=row.data.tolist(), want=ref.data.tolist())
+        # rows already handed out must stay what they were when the cursor moves on (several rows of one iteration held at once)
+        held = c.setdefault("held", [])
+        for k, old in enumerate(held):
+            if not self._same(old, self._row(t, k)):
+                st.fail("C05.iteration", f"cursor {ev['it']} over tensor {c['t']}: row {k}, yielded earlier and still held, changed when the cursor advanced "
+                        f"to row {c['pos']}", tensor=c["t"])
+        held.append(row)
+        if len(held) >= 2:
+            st.probes["several_rows_held"] += 1
         c["pos"] += 1
 
     def _ev_iter_drop(self, st, ev):
@@ -291,16 +325,43 @@ class IterSim(Sim):
         if self._live_on(st, ev["t"]):
             st.probes["getitem_during_live_iteration"] += 1
         n = t.data.shape[0]
-        i = max(-n, min(n - 1, ev["i"]))
-        if ev.get("slice"):
-            got = t[min(i % n, ev["j"]):ev["j"]]
-            want = t.data[min(i % n, ev["j"]):ev["j"]]
+        kind = ev.get("kind", "slice" if ev.get("slice") else "int")
+        i = ev["i"]
+        if kind in ("int", "npint", "float", "slice"):
+            i = max(-n, min(n - 1, i))
+        if kind == "slice":
+            key = slice(min(i % n, ev["j"]), ev["j"])
+        elif kind == "bool":
+            key = bool(ev.get("b"))            # numpy semantics: a new leading axis of length 1 (True) or 0 (False)
+        elif kind == "npint":
+            key = np.int64(i)
+        elif kind == "float":
+            key = float(i)                     # not an index: must be refused
+        elif kind == "none":
+            key = None
+        elif kind == "ellipsis":
+            key = (Ellipsis, 0) if t.data.ndim >= 2 else Ellipsis
         else:
-            got = t[i]
-            want = t.data[i]
-        # (to single precision: a 0-d result is re-wrapped as float32 on this tree - a dtype matter, C10, not decided here)
+            key = i                             # int, possibly out of range
+        st.probes["index_kind_" + kind] += 1
+        try:
+            want = t.data[key]
+        except Exception:
+            want = None
+        try:
+            with quiet():
+                got = t[key]
+        except Exception as e:
+            if want is not None:
+                st.fail("C05.indexing", f"t[{key!r}] on tensor {ev['t']} (first dim {n}) raised {type(e).__name__}; NumPy returns an array of shape {np.asarray(want).shape}", tensor=ev["t"])
+            return
+        if want is None:
+            st.fail("C05.indexing", f"t[{key!r}] on tensor {ev['t']} (first dim {n}) was answered with a tensor of shape {tuple(got.data.shape)}; "
+                    "the index cannot be honoured and must be rejected", tensor=ev["t"])
+        # (values to single precision: a 0-d result is re-wrapped as float32 on this tree - a dtype matter, C10, not decided here)
         if np.asarray(got.data).shape != np.asarray(want).shape or not np.allclose(np.asarray(got.data, dtype=np.float64), np.asarray(want, dtype=np.float64), rtol=1e-6, atol=1e-30):
-            st.fail("C05.indexing_during_iteration", f"t[{i}] on tensor {ev['t']} returned the wrong row while iterations were live", tensor=ev["t"])
+            st.fail("C05.indexing", f"t[{key!r}] on tensor {ev['t']} returned shape {tuple(np.asarray(got.data).shape)}, NumPy gives {np.asarray(want).shape} "
+                    f"(or different values) - indexing results depend on earlier index calls or on live iterations", tensor=ev["t"])
 
     def _ev_len(self, st, ev):
         t = st.T.get(ev["t"])
@@ -335,7 +396,7 @@ class IterSim(Sim):
         total = None
         k = 0
         with quiet():
-            for row in t:
+            for row in st.must("C05.iteration", "list(tensor)", list, t):
                 k += 1
                 s = (row * float(k)).sum()
                 total = s if total is None else total + s
